@@ -213,6 +213,12 @@ impl R {
         })
     }
 
+    /// an image with a placeholder among its own components, at any position (the shape a stricter
+    /// constructor could legitimately refuse)
+    pub fn has_any_placeholder_component_in_image(&self) -> bool {
+        self.any(&|r| r.tag.shape() == Shape::Image && r.kids.iter().any(|k| k.tag == Placeholder))
+    }
+
     /// Build the real enum term through the crate's public constructors, inserting children in
     /// recipe order. Panics (inside the crate) if the recipe violates a constructor's contract.
     pub fn build(&self) -> Term {
